@@ -429,6 +429,44 @@ func checkC07(c *Ctx) {
 			c.Sample(map[string]interface{}{"call": describe[id]})
 		}
 	}
+	// large parameter values through the parser: numLines / maxLineLength / cursorOverlapWidth written as
+	// numbers beyond 127 / 255 / 32767, positionally and by name, on a paragraph of several hundred lines
+	{
+		fBig := fmtFont(1)
+		fBig.MaxLineLength, fBig.NumLines, fBig.CursorOverlapWidth = 4, 2, 0
+		cfgb, _ := json.Marshal(parser.FontConfig{DefaultFontID: "A", Fonts: map[string]parser.Fonts{"A": fBig}})
+		fpath := filepath.Join(dir, "big.json")
+		os.WriteFile(fpath, cfgb, 0o644)
+		n := 400
+		toks := make([]int, n)
+		for i := range toks {
+			toks[i] = 2 + i%2
+		}
+		for k, pv := range []struct {
+			args        string
+			max, ov, nl int
+		}{
+			{`numLines=127`, 4, 0, 127}, {`numLines=128`, 4, 0, 128}, {`numLines=130`, 4, 0, 130}, {`numLines=256`, 4, 0, 256}, {`numLines=300`, 4, 0, 300},
+			{`maxLineLength=300`, 300, 0, 2}, {`40000`, 40000, 0, 2}, {`maxLineLength=6, cursorOverlapWidth=200`, 6, 200, 2}, {`5, numLines=1000`, 5, 0, 1000},
+		} {
+			text, words, model := fmtRender(toks, r, 0)
+			src := "text Out {\n    format(\"" + text + "\", " + pv.args + ")\n}\n"
+			res := Compile(src, Opts{Optimize: true, FontConfig: fpath})
+			got := ""
+			if res.Err == nil && res.Panic == "" {
+				_, dl := defLines(ParseAsm(res.Out), "Out")
+				var parts []string
+				for _, l := range dl {
+					parts = append(parts, l["content"].(string))
+				}
+				got = strings.TrimSuffix(strings.Join(parts, "\n"), "$")
+			}
+			id := fmt.Sprintf("bigparam%d", k)
+			describe[id] = fmt.Sprintf("format(<400 words>, %s) with a font of maxLineLength 4, numLines 2 err=%v", pv.args, res.Err)
+			recs = append(recs, map[string]interface{}{"id": id, "P": map[string]int{"max": pv.max, "ov": pv.ov, "nl": pv.nl, "sp": 1},
+				"T": model, "lines": fmtParse(got, words), "err": res.Err != nil || res.Panic != ""})
+		}
+	}
 	// the options -f, -l and -fc reach format() through the real binary as through the library
 	{
 		var cli []CLICase
